@@ -67,6 +67,8 @@ fn conv_ty(t: &Type, owner: &str) -> Ty {
                 "Result" => Ty::Res(Box::new(arg0())),
                 // a generic parameter bounded by AsIndex (`I`): the two accessor values
                 "I" => Ty::Named("AsIndex".into()),
+                // a generic parameter bounded by Into<Shape> (`S`): the shape it converts into
+                "S" => Ty::Named("Shape".into()),
                 // NonZero<usize> is its value (NonZero::new_unchecked is not in the translated fragment)
                 "NonZero" => Ty::Usize,
                 // the item types of the two mutable vector iterators
@@ -176,6 +178,7 @@ impl<'a> Tr<'a> {
                     Ty::Named(s) if s == "Vec" && name == "len" => Ty::Usize,
                     Ty::Named(s) if s == "Vec" && name == "is_empty" => Ty::Bool,
                     Ty::Named(s) if s == "AsIndex" => Ty::Usize,
+                    Ty::Named(s) if s == "Shape" && name == "into" => Ty::Named(s),
                     Ty::Named(s) => self.ret_of(&s, &name).unwrap_or(Ty::Unknown),
                     Ty::Usize if name == "checked_mul" => Ty::Opt(Box::new(Ty::Usize)),
                     Ty::Usize => Ty::Usize,
@@ -281,8 +284,27 @@ impl<'a> Tr<'a> {
         match s {
             Stmt::Local(l) => {
                 let Some(init) = l.init.as_ref() else { return "(*UNSUPPORTED let without initialiser*)".into() };
-                if init.diverge.is_some() {
-                    return format!("(*UNSUPPORTED let-else {}*)", tstr(&l.pat));
+                if let Some((_, div)) = &init.diverge {
+                    let (Pat::TupleStruct(ts), Expr::Block(b)) = (&l.pat, &**div) else {
+                        return format!("(*UNSUPPORTED let-else {}*)", tstr(&l.pat));
+                    };
+                    let ctor = tstr(&ts.path);
+                    if !(ctor == "Ok" || ctor == "Some") || ts.elems.len() != 1 {
+                        return format!("(*UNSUPPORTED let-else pattern {}*)", tstr(&l.pat));
+                    }
+                    let Pat::Ident(id) = &ts.elems[0] else { return format!("(*UNSUPPORTED let-else binder {}*)", tstr(&l.pat)) };
+                    let var = id.ident.to_string();
+                    let inner_ty = match self.ty_of(&init.expr, env) {
+                        Ty::Res(a) | Ty::Opt(a) => *a,
+                        _ => Ty::Unknown,
+                    };
+                    return self.expr(&init.expr, env, &mut |me, v, env| {
+                        let mut e2 = env.clone();
+                        e2.insert(var.clone(), inner_ty.clone());
+                        let ok = me.block(rest, &mut e2, k);
+                        let bad = me.block(&b.block.stmts, &mut env.clone(), &mut |me2, v, _| me2.finish(v));
+                        format!("match {} with\n  | {} {} => {}\n  | _ => {} end", v, ctor, var, ok, bad)
+                    });
                 }
                 if let Expr::Try(t) = &*init.expr {
                     return self.try_(&t.expr, Some(&l.pat), rest, env, k);
@@ -416,6 +438,10 @@ impl<'a> Tr<'a> {
             }
             Expr::Paren(p) => self.expr(&p.expr, env, k),
             Expr::Reference(r) => self.expr(&r.expr, env, k),
+            Expr::Return(r) => match r.expr.as_ref() {
+                Some(x) => self.expr(x, env, &mut |me, v, _| me.finish(v)),
+                None => self.finish("tt".into()),
+            },
             Expr::Unsafe(u) => self.block(&u.block.stmts, env, k),
             Expr::Block(b) => self.block(&b.block.stmts, env, k),
             Expr::Unary(u) if matches!(u.op, UnOp::Deref(_)) => self.expr(&u.expr, env, k),
@@ -612,6 +638,7 @@ impl<'a> Tr<'a> {
                     (Ty::Usize, "saturating_mul") => k(me, format!("(saturating_mul md {} {})", vs[0], vs[1]), env),
                     (Ty::Isize, "unsigned_abs") => k(me, format!("(unsigned_abs {})", vs[0]), env),
                     (Ty::Usize, "get") => k(me, vs[0].clone(), env),
+                    (Ty::Named(s), "into") if s == "Shape" => k(me, vs[0].clone(), env),
                     (Ty::Named(s), "addr") if s == "NonNull" => k(me, vs[0].clone(), env),
                     (Ty::Named(s), "as_mut") if s == "NonNull" => k(me, vs[0].clone(), env),
                     (Ty::Named(s), "add") | (Ty::Named(s), "sub") if s == "NonNull" => {
@@ -697,6 +724,15 @@ const TARGETS: &[(&str, &str)] = &[
     ("Matrix", "is_elementwise_operation_conformable"),
     ("Matrix", "is_multiplication_like_operation_conformable"),
     ("AxisIndex", "is_out_of_bounds"),
+    ("Shape", "new"),
+    ("Shape", "nrows"),
+    ("Shape", "ncols"),
+    ("Matrix", "shape"),
+    ("Matrix", "is_square"),
+    ("Matrix", "ensure_square"),
+    ("Matrix", "ensure_elementwise_operation_conformable"),
+    ("Matrix", "ensure_multiplication_like_operation_conformable"),
+    ("Matrix", "reshape"),
     // the pointer-level state machines of iter/iter_mut.rs
     ("IterNthVectorMut", "assemble"),
     ("IterNthVectorMut", "next"),
@@ -778,7 +814,7 @@ fn main() {
         } else {
             ""
         };
-        let rty = if self_mut && !tstr(&sig.output).contains("mutSelf") { format!("(G{} * {})", o, coq_ty(&ret)) } else { coq_ty(&ret) };
+        let rty = if self_mut && tstr(&sig.output) != "->&mutSelf" { format!("(G{} * {})", o, coq_ty(&ret)) } else { coq_ty(&ret) };
         println!("Definition G_{}_{} (md : cfg){} {} : res {} :=\n  {}.\n", o, n, es, params.join(" "), rty, body);
     }
 }
